@@ -62,6 +62,7 @@ fn namings() -> Vec<(&'static str, Naming)> {
         ("fresh-like-f<n>", Naming::FreshLike),
         ("numeric-shifted-1000", Naming::NumericOff(1000)),
         ("next-fresh-index-f<k>", Naming::FreshNext),
+        ("parsed-numerals-and-zero-padded", Naming::ParsedPadded),
         // numeric term names; the slots of the REWRITE RULES are spelled like the e-graph's own class parameters
         ("rule-slots-spelled-like-internal-slots", RULES_RESPELLED),
     ]
